@@ -572,7 +572,9 @@ class Program:
         (r"(::len$|::is_empty$|::iter$|::iter_mut$|::keys$|::values$|::push$|::pop$|::as_ref$|::as_mut$|::as_str$|::as_bytes$|::as_slice$|::get$|::get_mut$|::first$|::last$|::new$|::with_capacity$|::is_some$|::is_none$|::is_ok$|::is_err$|::unwrap$|::expect$|::unwrap_or$|::ok$|::err$|::take$|::remove$|::insert$|::swap_remove$|::truncate$|::clear$|::reserve$|::into_raw$|::from_raw$|::is_null$|::borrow$|::borrow_mut$|::new_uninit$|box_assume_init_into_vec_unsafe$|::must_use$|::extend_from_slice$)", set()),
         (r"(as std::ops::Try>::branch$|as std::ops::FromResidual>::from_residual$|::into$|::from$|::try_into$|::try_from$|::map_err$)", CONV | {"std::convert::TryFrom"}),
         (r"(::default$|::unwrap_or_default$|::or_default$)", {"std::default::Default"}),
-        (r"(^std::iter::|^core::iter::|as std::iter::Iterator>::|as std::iter::IntoIterator>::into_iter$|::collect$|::extend$|::from_iter$|^<I as std::iter::IntoIterator>)", ITER | {"std::iter::Extend", "std::default::Default", "std::cmp::Ord", "std::cmp::PartialEq", "std::hash::Hash", "std::clone::Clone"}),
+        (r"(::collect$|::extend$|::from_iter$|::sum$|::product$|::unzip$|::partition$)", ITER | {"std::iter::Extend", "std::default::Default", "std::cmp::Ord", "std::cmp::PartialEq", "std::hash::Hash"}),
+        (r"(^std::iter::|^core::iter::|as std::iter::Iterator>::|as std::iter::IntoIterator>::into_iter$|^<I as std::iter::IntoIterator>)", ITER),
+        (r"^(std::any::|std::mem::|core::mem::|std::ptr::|core::ptr::|std::boxed::|std::ffi::|std::hint::|core::hint::|std::alloc::|std::rc::|std::sync::Arc)", set()),
         (r"^std::io::", {"std::io::Read", "std::io::Write"}),
     ]
 
